@@ -286,7 +286,8 @@ def collect(case):
     for fmt in FMTS:
         obj = _clone(G.build(spec), case.get("clone"))
         snap0 = E.snapshot(obj, typ)
-        w = _expected(case, obj, typ)
+        # what the message must carry is what the object had before it was cloned
+        w = _expected(case, G.build(spec) if case.get("clone") else obj, typ)
         if E.snapshot_diff(snap0, E.snapshot(obj, typ)):
             raise RuntimeError("harness: describing the object changed it")
         if want is None:
@@ -829,6 +830,10 @@ FINDINGS = {
         kind in ("epoch", "man-epoch") and case["obj"]["type"] in ("opm", "oem")
         and (m := re.search(r"instant differs by (-?[0-9.e+-]+) s", msg)) is not None
         and 1e-6 < abs(float(m.group(1))) <= 2.1e-6),
+    # Ephem.copy() / ephem() forget method, order, name and cospar_id
+    "c13-ephem-copy-drops-settings": lambda facet, case, kind, msg, data: (
+        kind in ("interp-order", "interp-method", "name", "cospar_id") and case["obj"]["type"] == "oem"
+        and case.get("clone") == "copy()"),
     "c13-xml-empty-text": _p(lambda k, d: k == "xml-empty-text", lambda s, d: _empty_text(s)),
     "c13-kvn-man-comment-split": _p(lambda k, d: k == "man-comment" and d.get("fmt") == "kvn", _comment_token),
 }
@@ -857,7 +862,7 @@ _assume_for_development()
 FACETS = [
     Facet("opm", lambda s, t: case_of(G.opm_spec(), "opm"), check, setup=_setup,
           rule="object has a covariance, a maneuver, a user field or a non-UTC scale",
-          quick=(10, 180), thorough=(16, 2000)),
+          quick=(10, 150), thorough=(16, 2000)),
     Facet("opm_jpl", lambda s, t: case_of(st.one_of(G.opm_spec(jpl=True), G.opm_spec(jpl=True), G.oem_spec(jpl=True)),
                                           "opm_jpl"), check, setup=_setup_jpl,
           rule="as opm / oem; states in a body-centred frame created from the DE403 file",
@@ -867,7 +872,7 @@ FACETS = [
           quick=(8, 80), thorough=(16, 1000)),
     Facet("omm", lambda s, t: case_of(G.omm_spec(), "omm"), check, setup=_setup,
           rule="every case (orbit from a generated TLE or built like the reader builds it)",
-          quick=(4, 200), thorough=(8, 2000)),
+          quick=(4, 150), thorough=(8, 2000)),
     Facet("tdm", lambda s, t: case_of(G.tdm_spec(), "tdm"), check, setup=_setup,
           rule="every case (1-3 paths, Range/Azimut/Elevation/Doppler)",
           quick=(3, 200), thorough=(8, 2000)),
